@@ -251,6 +251,10 @@ m("c09_fused_writepath_missing", "C09", r"C09\.FUSED:WritePath:missing-attribute
                         cur""")
 m("c04_vm_super_skips_render", "C04", r"C04\.VM:super:always-renders", "super() answers an empty string when the ancestor's chunk has no instructions",
   "tera/src/vm/interpreter.rs", "                        let block_chunk = &lineage[level + 1];\n                        let old_chunk = state.chunk.replace(block_chunk);", "                        let block_chunk = &lineage[level + 1];\n                        if block_chunk.len() == 0 {\n                            state.stack.push(Value::safe_string(\"\"), current_ip..=current_ip);\n                            ip += 1;\n                            continue;\n                        }\n                        let old_chunk = state.chunk.replace(block_chunk);")
+m("c14_clamp_hi_len", "C14", r"C14\.ARITH:slice_items:clamp-bounds", "negative-step clamp uses len as the upper bound",
+  "tera/src/value/mod.rs", "let (lo, hi) = if step > 0 { (0, len) } else { (-1, len - 1) };", "let (lo, hi) = if step > 0 { (0, len) } else { (-1, len) };")
+m("c16_sort_unstable", "C16", r"C16\.ORDUSE:sort:stable", "plain sort uses sort_unstable_by",
+  "tera/src/filters.rs", "        out.sort_by(|a, b| a.cmp(b));", "        out.sort_unstable_by(|a, b| a.cmp(b));")
 # ---------------------------------------------------------------- C05
 m("c05_iso_global", "C05", r"C05\.ISO:writer:global_context", "render_component gives the component the global context",
   "tera/src/vm/interpreter.rs", """        let mut state = State::new_with_chunk(&context, chunk);
